@@ -80,8 +80,40 @@ let run_e2ec toks obs =
            else Printf.sprintf "AGREE %s nontrivial" id)
   | _ -> "SKIP"
 
+let run_e2en toks obs =
+  match toks with
+  | "e2en" :: id :: rest ->
+      let k = parse_kv rest in
+      (match Hashtbl.find_opt obs id with
+       | None -> Printf.sprintf "MISMATCH %s no-observation" id
+       | Some ot ->
+           let okv = parse_kv (List.tl (List.tl ot)) in
+           if kv "panic" okv <> "" then Printf.sprintf "PROPFAIL %s sig=panic %s" id (kv "panic" okv)
+           else if kv "setup" okv <> "" then Printf.sprintf "MISMATCH %s setup failed: %s" id (kv "setup" okv)
+           else if kv "foreign" okv <> "0" then
+             Printf.sprintf "PROPFAIL %s sig=foreign-cancel:e2e-notify-abandoned-%s %s running notification handler(s) had their context cancelled although nobody cancelled them and the transport was open (a later Notify was abandoned by its caller while its frame was being written)" id (kv "how" k) (kv "foreign" okv)
+           else Printf.sprintf "AGREE %s nontrivial" id)
+  | _ -> "SKIP"
+
+(* a Connection over real transports: the Connection's own client against a scripted server *)
+let run_cc toks obs =
+  match toks with
+  | "cc" :: id :: rest ->
+      (match Hashtbl.find_opt obs id with
+       | None -> Printf.sprintf "MISMATCH %s no-observation" id
+       | Some ot ->
+           let okv = parse_kv (List.tl (List.tl ot)) in
+           if kv "panic" okv <> "" then Printf.sprintf "PROPFAIL %s sig=panic %s" id (kv "panic" okv)
+           else if kv "atret" okv <> kv "after" okv then
+             Printf.sprintf "PROPFAIL %s sig=late-write:connection-client the result value of a call made through the Connection's client changed after the call had returned (%s at return after %s ms, %s later; error %s)" id
+               (kv "atret" okv) (kv "retms" okv) (kv "after" okv) (kv "err" okv)
+           else if kv "err" okv = "-" && kv "atret" okv = "s:696e697469616c" then
+             Printf.sprintf "PROPFAIL %s sig=wrong-result:connection-client the call returned success but its result value was not written" id
+           else Printf.sprintf "AGREE %s nontrivial" id)
+  | _ -> "SKIP"
+
 let run_c09 toks obs =
-  match toks with "e2ec" :: _ -> run_e2ec toks obs | _ ->
+  match toks with "e2ec" :: _ -> run_e2ec toks obs | "e2en" :: _ -> run_e2en toks obs | _ ->
   with_trace toks obs (fun id k evs tr ->
     if not (c09_only_own tr) then Printf.sprintf "PROPFAIL %s sig=%s a handler's context was cancelled although its caller did not cancel it and the transport was not closing" id
         (if kv "family" k = "" then "foreign-cancel" else "foreign-cancel:" ^ kv "family" k)
